@@ -328,6 +328,16 @@ EXTRA13 = {
     'C20': "Replayed greetings (the victim's, the other honest peers', the node's own nonce) alone / after the attacker's own / twice; every rule-breaking block also dressed up as the answer to a request the node never made; blocks stating a wrong height delivered as REQUESTED answers (inventory, request, block) - the bulk-download path; manager steps at the next full minute and after every outstanding request has timed out.",
 }
 
+# additions of the fourteenth wave
+EXTRA14 = {
+    'C03': "Thread schedules (preemption bound 2 / 3): two threads asking one chain state for the balances at different blocks (deep vs shallow, side branch, the same block); every answer and every later answer equals the replay of that block's chain.",
+    'C06': "Every mutant is also offered to a chain state that already holds the genuine block.",
+    'C12': "A pending pool that fits in one block only just (block within one output's size of the 200,000-byte limit).",
+    'C13': "A submission spending an output locked to 64 bytes that are not a curve point (the signature check fails in the key parser, not with a validation error).",
+    'C15': "The receive command started, and killed at every boundary, in a directory that has no wallet yet (the first save: no file or a complete one).",
+    'C20': "A phase in which the node's own greeting has gone out and the peer never greets; oracle: nothing sent by a connection that never greeted takes effect.",
+}
+
 NOT_YET = "check not built yet in this revision of /verif (work in progress; see DESIGN.md section 4)"
 
 ALL = ['C%02d' % i for i in range(1, 21)]
@@ -345,6 +355,8 @@ def main():
             text = text.rstrip() + ' ' + EXTRA12[pid]
         if pid in EXTRA13:
             text = text.rstrip() + ' ' + EXTRA13[pid]
+        if pid in EXTRA14:
+            text = text.rstrip() + ' ' + EXTRA14[pid]
         checks.append({
             'property_id': pid,
             'quick_cmd': './check %s --tier quick' % pid,
